@@ -5,13 +5,18 @@ from harness.gen import dag
 OPTSETS = [(0, 0, 0), (1, 0, 0), (0, 1, 0), (1, 1, 0), (1, 0, 1), (1, 1, 1)]  # (has_idx, crc, cache_bits): the 6 valid sets
 
 
-def heap_spec(n, bits_len=24):
-    """DAG (a 4-ary tree) with exactly n distinct cells, all reachable from the last node"""
+def heap_spec(n, bits_len=24, fat=True):
+    """DAG (a 4-ary tree) with exactly n distinct cells, all reachable from the last node. fat: the root and its first children
+    are maximal cells (1023 / 1017 / 993 bits, 4 references) - the longest cell serialisations together with the widest
+    reference indexes the cell count implies"""
     spec = []
     for i in range(n):
         h = n - 1 - i
         refs = [n - 1 - c for c in range(4 * h + 1, 4 * h + 5) if c < n]
-        spec.append({'k': 'o', 'b': format(i, '0%db' % bits_len), 'r': refs})
+        bits = format(i, '0%db' % bits_len)
+        if fat and h < 3 and len(refs) == 4:
+            bits = bits + dag.expand_bits((1023, 1017, 993)[h] - bits_len, 2, h)
+        spec.append({'k': 'o', 'b': bits, 'r': refs})
     return spec
 
 
